@@ -135,7 +135,8 @@ def labels(draw, n):
     ci = draw(gen.partition(n))
     k = int(ci.max())
     m = draw(gen.relabelling(k))
-    return np.array([m[l - 1] for l in ci], dtype=int)
+    out = np.array([m[l - 1] for l in ci])
+    return out if out.dtype.kind == "f" else out.astype(int)
 
 
 @st.composite
